@@ -71,9 +71,18 @@ func (ts *Timers) withMap(x interface{}) error {
 	if err = json.Unmarshal(js, &ts.Map); err != nil {
 		return err
 	}
-	for _, te := range ts.Map {
+	var missing []string
+	for id, te := range ts.Map {
+		if te == nil {
+			delete(ts.Map, id)
+			missing = append(missing, id)
+			continue
+		}
 		te.timers = ts
 		te.Ctl = make(chan bool)
+	}
+	if 0 < len(missing) {
+		return fmt.Errorf("no timer given for %v", missing)
 	}
 
 	return nil
